@@ -49,7 +49,11 @@ RULE = ("random sequences of ask / ask_dqd / tell / tell_dqd calls (about 30 % o
         "a Scheduler with 1-6 spy emitters (DQD and non-DQD mixed) that emit 0-5 rows each, the sizes changing every "
         "iteration; strata: plain GridArchive, GridArchive with thresholds + plain result archive, ProximityArchive "
         "with objective=None, long sequences; both add modes, with/without result archive, with/without extra "
-        "fields; every case is run a second time in the other add mode for the archive-contents comparison. A case "
+        "fields; archive dtypes float64 / float32 / dict form chosen independently for archive and result archive "
+        "(also the dtypes of the extra fields), evaluation values that are not representable in float32 and "
+        "objectives that differ by less than float32 resolution; tells with a wrong-length argument anywhere in the "
+        "sequence, followed by calls of either kind; "
+        "every case is run a second time in the other add mode for the archive-contents comparison. A case "
         "is non-trivial when an accepted tell routes rows of at least two emitters with unequal batch sizes, or "
         "contains a rejected call made after rows were inserted; counted once per distinct op list")
 PARTIAL = []
@@ -58,10 +62,17 @@ ASSUMPTIONS = [
     "measures, extra fields, Jacobian) is derived injectively from (iteration, row position) by the harness",
     "the archive is observed through a subclass that records the arguments and the return value of add / "
     "add_single (public methods) and through data()",
-    "emitters and archives do not raise; a tell rejected with ValueError (wrong-length array) is generated only as "
-    "the last call of a case because the property is silent about the protocol state afterwards (the code has then "
-    "already left the ask phase and the emitters are never told about that batch)",
-    "in add_mode='single' with zero rows in total the feedback dict handed to the emitters has no keys; accepted",
+    "emitters and archives do not raise",
+    "after a tell / tell_dqd rejected with ValueError (wrong-length array) the property does not say whether the "
+    "pending ask is consumed (the code records the call before validating: the next legal call is ask / ask_dqd) or "
+    "kept (the tell may be retried); the oracle accepts both readings and tracks the set of protocol states they "
+    "allow: a tell is never legal when the last accepted ask was an ask_dqd (or vice versa) or when no ask is "
+    "pending in either reading. The Lean model mirrors the code (pending ask consumed)",
+    "documented reading, not a violation: in add_mode='single' with zero rows in total the emitters receive "
+    "add_info == {} (no keys) while batch mode hands out empty arrays; C04 is about rows and there are none",
+    "dtypes: what an archive is handed is compared with what was told in that archive's own dtype (an early cast to "
+    "the receiving archive's dtype is harmless); what an emitter is handed must be exactly what was told, value and "
+    "dtype; what an archive stores must be the told value cast once to that archive's dtype",
 ]
 TECHNIQUE = "Lean 4 model + theorems; lock-step correspondence with spy emitters and recording archives; log oracle"
 LEVEL_TEXT = ("proof (unbounded: any number of emitters, all batch sizes, both add modes, with/without result archive, "
@@ -86,19 +97,29 @@ def stat(key, k=1):
 # row encoding: every per-row value identifies (iteration, position)
 
 
-def make_eval(it, n, seed, with_objective):
-    """Evaluation arrays for the `n` rows of the batch asked at op index `it`."""
+def make_eval(it, n, seed, with_objective, noise=False):
+    """Evaluation arrays for the `n` rows of the batch asked at op index `it`.
+
+    With `noise` every float value carries a perturbation < 3e-4 that is not representable in float32 (nor dyadic),
+    and objectives additionally a term of a few 1e-9 (below float32 resolution: equal in a float32 archive,
+    different in a float64 one).  Positions are decoded by rounding, so the perturbation does not disturb them."""
     rng = random.Random(seed)
     p = np.arange(n)
     frac = (p + 1) / 64.0  # row position, exact, < 1
     cx = np.array([rng.randrange(4) for _ in range(n)], dtype=float)
     cy = np.array([rng.randrange(4) for _ in range(n)], dtype=float)
     r = np.array([rng.randrange(4) for _ in range(n)], dtype=float)
+    if noise:
+        eps = lambda j: (((p * 7 + it * 3 + j) % 11) + 1) * 0.1 / 4096.0
+        tiny = ((it * 5 + p) % 7) * 1e-9
+    else:
+        eps = lambda j: np.zeros(n)
+        tiny = np.zeros(n)
     ev = {
-        "objective": (r + frac) if with_objective else None,
-        "measures": np.stack([cx + frac, cy + ((it % 60) + 1) / 64.0], axis=1).reshape(n, MDIM),
+        "objective": (r + frac + eps(0) + tiny) if with_objective else None,
+        "measures": np.stack([cx + frac + eps(1), cy + ((it % 60) + 1) / 64.0 + eps(2)], axis=1).reshape(n, MDIM),
         "tag": (it * 1000 + p).astype(np.int64),
-        "vec": np.stack([p.astype(float), np.full(n, float(it))], axis=1).reshape(n, 2),
+        "vec": np.stack([p.astype(float) + eps(3), np.full(n, float(it)) + eps(4)], axis=1).reshape(n, 2),
         "jacobian": (p[:, None, None] + np.arange((1 + MDIM) * SOLDIM).reshape(1, 1 + MDIM, SOLDIM) / 16.0
                      + it * 64.0),
     }
@@ -108,23 +129,27 @@ def make_eval(it, n, seed, with_objective):
 def rows_of(name, arr, it):
     """Decode a (slice of a) per-row array back to row positions; None if it does not decode."""
     arr = np.asarray(arr)
+
+    def near(v):  # nearest integer when within the perturbation of make_eval(noise=True), else the value itself
+        return float(round(v)) if abs(v - round(v)) < 0.05 else v
+
     try:
         if name == "objective":
-            out = [(float(x) % 1.0) * 64 - 1 for x in arr]
+            out = [near((float(x) % 1.0) * 64 - 1) for x in arr]
         elif name == "measures":
             if arr.ndim != 2 or arr.shape[1] != MDIM:
                 return None
-            if any(((float(y) % 1.0) * 64 - 1) != it % 60 for y in arr[:, 1]):
+            if any(near((float(y) % 1.0) * 64 - 1) != it % 60 for y in arr[:, 1]):
                 return None
-            out = [(float(x) % 1.0) * 64 - 1 for x in arr[:, 0]]
+            out = [near((float(x) % 1.0) * 64 - 1) for x in arr[:, 0]]
         elif name == "tag":
             if any(int(x) // 1000 != it for x in arr):
                 return None
             out = [int(x) % 1000 for x in arr]
         elif name == "vec":
-            if arr.ndim != 2 or arr.shape[1] != 2 or any(float(x) != it for x in arr[:, 1]):
+            if arr.ndim != 2 or arr.shape[1] != 2 or any(near(float(x)) != it for x in arr[:, 1]):
                 return None
-            out = [float(x) for x in arr[:, 0]]
+            out = [near(float(x)) for x in arr[:, 0]]
         elif name == "jacobian":
             if arr.ndim != 3 or arr.shape[1:] != (1 + MDIM, SOLDIM):
                 return None
@@ -246,21 +271,36 @@ def recording(cls, log, is_result):
     return Rec
 
 
+DTYPES = {
+    "f64": lambda: np.float64,
+    "f32": lambda: np.float32,
+    "dict32": lambda: {"solution": np.float32, "objective": np.float32, "measures": np.float32},
+    "dictA": lambda: {"solution": np.float32, "objective": np.float64, "measures": np.float32},
+    "dictB": lambda: {"solution": np.float64, "objective": np.float32, "measures": np.float64},
+}
+XDTYPES = {"i64": np.int64, "i32": np.int32, "f64": np.float64, "f32": np.float32}
+
+
 def build(case, mode):
     from ribs.archives import GridArchive, ProximityArchive
     from ribs.schedulers import Scheduler
     log = []
-    extra = {"tag": ((), np.int64), "vec": ((2,), np.float64)} if case["extra"] else None
     kind = case["archive"]
+    dts = case.get("dtype", {"main": "f64", "result": "f64"})
+    xdts = case.get("xdtype", {"main": ["i64", "f64"], "result": ["i64", "f64"]})
+
+    def cfg(is_result):
+        who = "result" if is_result else "main"
+        extra = {"tag": ((), XDTYPES[xdts[who][0]]), "vec": ((2,), XDTYPES[xdts[who][1]])} if case["extra"] else None
+        return {"dtype": DTYPES[dts[who]](), "extra_fields": extra}
 
     def grid(is_result, **kw):
         return recording(GridArchive, log, is_result)(solution_dim=SOLDIM, dims=[4, 4],
-                                                      ranges=[(0, 4), (0, 4)], extra_fields=extra, **kw)
+                                                      ranges=[(0, 4), (0, 4)], **cfg(is_result), **kw)
 
     if kind == "proximity":
         mk = lambda r: recording(ProximityArchive, log, r)(solution_dim=SOLDIM, measure_dim=MDIM, k_neighbors=2,
-                                                           novelty_threshold=0.75, initial_capacity=4,
-                                                           extra_fields=extra)
+                                                           novelty_threshold=0.75, initial_capacity=4, **cfg(r))
         archive, result = mk(False), (mk(True) if case["result"] else None)
     elif kind == "cmamae":
         archive = grid(False, learning_rate=0.5, threshold_min=1.0)
@@ -295,15 +335,43 @@ def gen_with(kind, rng, long=False):
         "extra": rng.random() < 0.5,
         "emitters": emitters,
     }
+    if rng.random() < 0.65:
+        names = ["f64", "f32", "f32", "dict32", "dictA", "dictB"]
+        case["dtype"] = {"main": rng.choice(names), "result": rng.choice(names)}
+        case["xdtype"] = {w: [rng.choice(["i64", "i32"]), rng.choice(["f64", "f32"])] for w in ("main", "result")}
+        case["noise"] = rng.random() < 0.85
+    else:
+        case["noise"] = rng.random() < 0.3
     nops = rng.randint(20, 40) if long else rng.randint(2, 14)
     ops = []
     phase = "none"
     p_illegal = rng.choice([0.0, 0.3, 0.3, 0.3, 0.5])
     zero_heavy = rng.random() < 0.25
+    p_bad = rng.choice([0.0, 0.06, 0.06, 0.15])
+    after_bad = False
+
+    def bad_op(ph):
+        which = ["measures"] + (["objective"] if kind != "proximity" else []) + (["tag"] if case["extra"] else [])
+        dq = (ph == "askdqd") if (ph in ("ask", "askdqd") and rng.random() < 0.85) else rng.random() < 0.5
+        return {"op": "telldqdbad" if dq else "tellbad", "seed": rng.randrange(1 << 30),
+                "which": rng.choice(which + (["jacobian"] if dq else []))}
+
     for _ in range(nops):
         legal = {"none": ["ask", "askdqd"], "tell": ["ask", "askdqd"], "telldqd": ["ask", "askdqd"],
                  "ask": ["tell"], "askdqd": ["telldqd"]}[phase]
-        if rng.random() < p_illegal:
+        if rng.random() < p_bad and phase in ("ask", "askdqd"):
+            op = bad_op(phase)
+            ops.append(op)
+            # the code records the call before validating: an in-order rejected tell consumes the pending ask
+            if op["op"] == {"ask": "tellbad", "askdqd": "telldqdbad"}[phase]:
+                phase = op["op"][:-3]
+            after_bad = True
+            continue
+        if after_bad and rng.random() < 0.7:
+            # what is legal after a rejected tell: any of the four, the other kind of tell in particular
+            after_bad = False
+            name = rng.choice(["tell", "telldqd", "tell", "telldqd", "ask", "askdqd"])
+        elif rng.random() < p_illegal:
             name = rng.choice([o for o in ["ask", "askdqd", "tell", "telldqd"] if o not in legal])
         else:
             name = rng.choice(legal)
@@ -316,10 +384,7 @@ def gen_with(kind, rng, long=False):
         if name in legal:
             phase = name
     if rng.random() < 0.12:
-        which = ["measures"] + (["objective"] if kind != "proximity" else []) + (["tag"] if case["extra"] else [])
-        dq = (phase == "askdqd") if (phase in ("ask", "askdqd") and rng.random() < 0.85) else rng.random() < 0.5
-        ops.append({"op": "telldqdbad" if dq else "tellbad", "seed": rng.randrange(1 << 30),
-                    "which": rng.choice(which + (["jacobian"] if dq else []))})
+        ops.append(bad_op(phase))
     case["ops"] = ops
     return case
 
@@ -328,6 +393,10 @@ def nontrivial(case):
     phase, ns, inserted = "none", None, False
     for op in case["ops"]:
         name = op["op"]
+        if name.endswith("bad"):
+            if phase == {"tellbad": "ask", "telldqdbad": "askdqd"}[name]:
+                phase = name[:-3]
+            continue
         if name in ("ask", "askdqd"):
             if phase in ("ask", "askdqd"):
                 if inserted:
@@ -386,20 +455,28 @@ def run_mode(case, mode, drv):
     sched, archive, result, spies, log = build(case, mode)
     k = len(spies)
     with_obj = case["archive"] != "proximity"
+    noise = bool(case.get("noise"))
     if drv is not None:
         drv.ask(f"new {mode} {1 if result is not None else 0}")
-    # oracle state (property reading, independent of the model)
-    phase = "none"
+        stat("dtype:" + "/".join(case.get("dtype", {"main": "f64", "result": "f64"}).values()) if result is not None
+             else "dtype:" + case.get("dtype", {"main": "f64"})["main"] + "/-")
+    # oracle state (property reading, independent of the model).  `phases` is the set of protocol states the
+    # property allows at this point: a singleton except after a tell rejected with ValueError, where both
+    # "pending ask consumed" and "pending ask kept" are accepted readings (see ASSUMPTIONS)
+    legal = {"none": ("ask", "askdqd"), "tell": ("ask", "askdqd"), "telldqd": ("ask", "askdqd"),
+             "ask": ("tell",), "askdqd": ("telldqd",)}
+    phases = {"none"}
     pending = None  # (it, [n_e], [generated arrays])
-    ref = {}  # elitist reference contents: cell -> (objective, it, pos)
-    meta = {}  # (it, pos) -> full expected stored row
+    refs = {}  # per elitist archive: cell -> (objective in the archive's dtype, it, pos)
+    meta = {}  # (em, it, k) -> the row as told
     for it, op in enumerate(case["ops"]):
         name = op["op"]
         where = f"op#{it} {name}"
         base = name.replace("bad", "")
         bad = name.endswith("bad")
-        in_order = (phase not in ("ask", "askdqd")) if base in ("ask", "askdqd") else \
-            (phase == {"tell": "ask", "telldqd": "askdqd"}[base])
+        can = {ph for ph in phases if base in legal[ph]}  # states in which this call is in order
+        in_order = bool(can)
+        must_accept = can == phases
         before_a = canon_data(archive)
         before_r = canon_data(result) if result is not None else None
         mark = len(log)
@@ -413,9 +490,9 @@ def run_mode(case, mode, drv):
             else:
                 if pending is not None:
                     n_rows = sum(pending[1])
-                    ev = make_eval(pending[0], n_rows, op["seed"], with_obj)
+                    ev = make_eval(pending[0], n_rows, op["seed"], with_obj, noise)
                 else:
-                    ev = make_eval(0, 0, op["seed"], with_obj)
+                    ev = make_eval(0, 0, op["seed"], with_obj, noise)
                 args = {"objective": ev["objective"], "measures": ev["measures"]}
                 if case["extra"]:
                     args["tag"], args["vec"] = ev["tag"], ev["vec"]
@@ -445,10 +522,18 @@ def run_mode(case, mode, drv):
         # ---------------- oracle: the property statement on the logs ----------------
         if not in_order:
             if got != "err runtime":
-                return Failure("oracle", f"{where}: out-of-order call did not raise RuntimeError ({got})"), None, None
+                return Failure("oracle", f"{where}: out-of-order call did not raise RuntimeError ({got}); protocol "
+                               f"state(s) allowed by the history: {sorted(phases)}"), None, None
+        elif got == "err runtime":
+            if must_accept:
+                return Failure("oracle", f"{where}: in-order call raised {got}: {exc} (protocol state(s) "
+                               f"{sorted(phases)})"), None, None
+            phases = phases - can  # the implementation follows the reading in which this call is out of order
         elif bad:
             if got != "err value":
                 return Failure("corr", f"{where}: wrong-length argument gave {got}, expected ValueError"), None, None
+            # both readings from here on: pending ask kept (`can`) or consumed (`base`)
+            phases = can | {base}
         elif got != "ok":
             return Failure("oracle", f"{where}: in-order call raised {got}: {exc}"), None, None
         if got != "ok":
@@ -473,7 +558,7 @@ def run_mode(case, mode, drv):
                 return Failure("oracle", f"{where}: ask result is not the concatenation in emitter order: "
                                f"{ret.tolist()} vs {want.tolist()}"), None, None
             pending = (it, [len(o) for o in outs], outs)
-            phase = base
+            phases = {base}
             impl_events = [("ask", dqd, e["em"], len(e["out"])) for e in asks]
         elif got == "ok":
             dqd = base == "telldqd"
@@ -525,9 +610,14 @@ def run_mode(case, mode, drv):
                                            f"{'result ' if is_result else ''}archive is not that of rows {rows}: "
                                            f"{np.asarray(arr).tolist()}"), None, None
                         full = np.asarray(ev[fname])
-                        if not np.array_equal(np.asarray(arr), full[rows] if rows else full[:0]):
-                            return Failure("oracle", f"{where}: {fname} inserted into the archive differs from "
-                                           f"the value told for rows {rows}"), None, None
+                        dt = (result if is_result else archive).dtypes[fname]
+                        want = (full[rows] if rows else full[:0]).astype(dt)
+                        if not np.array_equal(np.asarray(arr).astype(dt), want):
+                            return Failure("oracle", f"{where}: {fname} handed to the "
+                                           f"{'result ' if is_result else ''}archive for rows {rows} is "
+                                           f"{np.asarray(arr).astype(dt).tolist()} (dtype {np.asarray(arr).dtype}); "
+                                           f"told, in that archive's dtype {np.dtype(dt)}: {want.tolist()}"), \
+                                None, None
                     if case["extra"] and sorted(e["fields"]) != ["tag", "vec"]:
                         return Failure("oracle", f"{where}: extra fields {sorted(e['fields'])} reached the "
                                        "archive"), None, None
@@ -587,9 +677,11 @@ def run_mode(case, mode, drv):
                                        f"(shape {None if arr is None else np.asarray(arr).shape}), its rows are "
                                        f"{rows}"), None, None
                     full = np.asarray(ev[fname])
-                    if not np.array_equal(np.asarray(arr), full[rows[0]:rows[-1] + 1] if rows else full[:0]):
-                        return Failure("oracle", f"{where}: emitter {em} received {fname} values that differ "
-                                       "from what was told"), None, None
+                    want = full[rows[0]:rows[-1] + 1] if rows else full[:0]
+                    if not np.array_equal(np.asarray(arr), want) or np.asarray(arr).dtype != full.dtype:
+                        return Failure("oracle", f"{where}: emitter {em} received {fname} = "
+                                       f"{np.asarray(arr).tolist()} (dtype {np.asarray(arr).dtype}), told "
+                                       f"{want.tolist()} (dtype {full.dtype})"), None, None
                 if total == 0:
                     # no rows at all: batch mode hands out empty arrays, single mode a dict without keys
                     if any(len(np.asarray(v)) != 0 for v in e["add_info"].values()):
@@ -614,41 +706,51 @@ def run_mode(case, mode, drv):
                                        f"rows {rows}"), None, None
             # (c) archive contents against the elitist reference (plain grid archives only)
             for p in range(total):
-                obj = float(ev["objective"][p]) if with_obj else 0.0
                 m = ev["measures"][p]
-                cell = int(m[0]) * 4 + int(m[1])
-                row = {"objective": obj, "measures": m.tolist()}
+                row = {"objective": ev["objective"][p] if with_obj else np.float64(0.0), "measures": m}
                 if case["extra"]:
-                    row["tag"], row["vec"] = int(ev["tag"][p]), ev["vec"][p].tolist()
+                    row["tag"], row["vec"] = ev["tag"][p], ev["vec"][p]
                 em = max(e for e in range(k) if starts[e] <= p and ns[e] > 0 and p < starts[e] + ns[e])
-                row["solution"] = [float(em), float(pit), float(p - starts[em])]
+                row["solution"] = np.array([float(em), float(pit), float(p - starts[em])])
                 row["id"] = (pit, p)
                 meta[(em, pit, p - starts[em])] = row
-                if cell not in ref or obj > ref[cell][0]:
-                    ref[cell] = (obj, pit, p)
             for arch, aname in ((archive, "archive"), (result, "result archive")):
                 if arch is None:
                     continue
                 d = arch.data()
                 elitist = case["archive"] == "grid" or (case["archive"] == "cmamae" and arch is result)
+                ref = refs.setdefault(aname, {})
+                if elitist:
+                    # best of history per cell, compared in this archive's own objective / measures dtype
+                    for p in range(total):
+                        obj = np.asarray(ev["objective"][p]).astype(arch.dtypes["objective"])
+                        mc = np.asarray(ev["measures"][p]).astype(arch.dtypes["measures"])
+                        cell = int(mc[0]) * 4 + int(mc[1])
+                        if cell not in ref or obj > ref[cell][0]:
+                            ref[cell] = (obj, pit, p)
                 if elitist and sorted(int(i) for i in d["index"]) != sorted(ref):
                     return Failure("oracle", f"{where}: {aname} occupies cells {sorted(int(i) for i in d['index'])}"
                                    f", best-of-history occupies {sorted(ref)}"), None, None
                 for j, idx in enumerate(d["index"]):
                     ss = sols_of(d["solution"][j][None])[0]
                     r = meta.get(ss)  # the told row this stored solution belongs to
-                    if r is None or r["solution"] != np.asarray(d["solution"][j]).tolist():
+                    if r is None or r["solution"].tolist() != np.asarray(d["solution"][j]).tolist():
                         return Failure("oracle", f"{where}: {aname} stores a solution that was never told: "
                                        f"{ss}"), None, None
                     for fname in ["objective", "measures"] + (["tag", "vec"] if case["extra"] else []):
-                        if np.asarray(d[fname][j]).tolist() != r[fname]:
+                        # stored = the told value cast once to this archive's dtype of the field
+                        dt = arch.dtypes[fname]
+                        want = np.asarray(r[fname]).astype(dt)
+                        if np.asarray(d[fname]).dtype != dt or np.asarray(d[fname][j]).tolist() != want.tolist():
                             return Failure("oracle", f"{where}: {aname} cell {int(idx)}: field {fname} = "
-                                           f"{np.asarray(d[fname][j]).tolist()} does not belong to the stored "
-                                           f"solution {ss} (told {r[fname]})"), None, None
+                                           f"{np.asarray(d[fname][j]).tolist()} (dtype {np.asarray(d[fname]).dtype}) "
+                                           f"is not the value told for the stored solution {ss} cast to "
+                                           f"{np.dtype(dt)}: {want.tolist()} (told {np.asarray(r[fname]).tolist()})"), \
+                                None, None
                     if elitist and ref[int(idx)][1:] != r["id"]:
                         return Failure("oracle", f"{where}: {aname} cell {int(idx)} holds row {r['id']}, "
                                        f"best-of-history is {ref[int(idx)][1:]}"), None, None
-            phase = base
+            phases = {base}
             # events for the model comparison
             for e in adds:
                 ss = sols_of(e["solution"])
@@ -657,8 +759,6 @@ def run_mode(case, mode, drv):
                 impl_events.append(("tell", dqd, e["em"], [(a, c) for (a, _, c) in sols_of(e["solution"])],
                                     rows_of("measures", e["measures"], pit)))
             pending = None
-        elif got == "err value" and in_order:
-            phase = base  # the code has left the ask phase (see ASSUMPTIONS); the case ends here
 
         # ---------------- correspondence with the Lean model ----------------
         if drv is not None:
@@ -681,8 +781,6 @@ def run_mode(case, mode, drv):
                 mev = parse_events(fields["ev"])
                 if mev != impl_events:
                     return Failure("corr", f"{where}: calls made impl={impl_events} model={mev}"), None, None
-        if bad:
-            break
     return None, canon_data(archive), (canon_data(result) if result is not None else None)
 
 
